@@ -166,6 +166,16 @@ def parser_literal_cases():
     exp = [("cvar", ['bind(C, name="Foo_Bar")'], None), ("s", [], "len('ab;c')"), ("d", ['dimension(len("q!r"))'], None)]
     if got != exp:
         return {"confirmed": True, "input": {"source": src}, "actual": got, "expected": exp, "how": "real parser: (name, attributes, character length) of the declared variables"}
+    # ... and in the prefix of a function statement (the statement's literals are collected by the container that read it)
+    src = "module m\ncontains\n  character(len=len('abc')) function f()\n    f = 'abc'\n  end function f\n  character(kind=kind('a'), len=2) function g()\n    g = 'ab'\n  end function g\nend module m\n"
+    try:
+        fns = realrun.parse_source(src).modules[0].functions
+        got = [(x.name, x.retvar.strlen, x.retvar.kind) for x in fns]
+    except Exception as e:
+        got = f"{type(e).__name__}: {e}"
+    exp = [("f", "len('abc')", None), ("g", "2", "kind('a')")]
+    if got != exp:
+        return {"confirmed": True, "input": {"source": src}, "actual": got, "expected": exp, "how": "real parser: (name, length, kind) of function results typed in the prefix with a literal in the type parameters"}
     # the `lower` option lower-cases code, never the text of a literal
     src = ("module m\n  CHARACTER(len=*), PARAMETER :: Greeting = 'Hello; World ! \"Not\" A Comment & More', Name = \"Worker_C_Name\"\n  character(len=8) :: Late\n"
            "  parameter (Late = 'Mixed Up')\nend module m\n")
@@ -182,7 +192,7 @@ def parser_literal_cases():
 
 
 def search(seed=0, nrandom=400, randlen=5):
-    hit = doc_cases() or lookahead_cases() or parser_literal_cases()
+    hit = doc_cases() or lookahead_cases() or parser_literal_cases() or include_and_doc_layouts()
     if hit:
         return hit
     for seq in sequences(seed, nrandom=nrandom, randlen=randlen):
@@ -210,3 +220,39 @@ def count_cases(seed=0, nrandom=400, randlen=5):
         except Invalid:
             pass
     return n, v
+
+
+def include_and_doc_layouts():
+    """an INCLUDE line is expanded wherever it stands on its source line (first, or after a `;`), and a documentation line that follows a statement which takes no documentation
+    (`use`, `implicit none`) keeps its quoted words"""
+    inc = "integer :: b = 2\n  !! doc of b\n"
+    one = "module m\n  implicit none\n  integer :: a = 1\n  include 'decl.inc'\n  integer :: c = 3\nend module m\n"
+    semi = "module m\n  implicit none\n  integer :: a = 1; include 'decl.inc'; integer :: c = 3\nend module m\n"
+    got = {}
+    sf = loader.import_repo("ford.sourceform")
+    st = loader.import_repo("ford.settings")
+    import io, contextlib
+    for label, text in (("one statement per line", one), ("INCLUDE after a ';'", semi)):
+        realrun.reset_names()
+        with realrun.project_dir({"m.f90": text, "decl.inc": inc}) as d:
+            try:
+                with contextlib.redirect_stdout(io.StringIO()), contextlib.redirect_stderr(io.StringIO()):
+                    f = sf.FortranSourceFile(os.path.join(d, "m.f90"), st.ProjectSettings(preprocess=False, quiet=True, warn=False))
+                got[label] = [(v.name, [x.strip() for x in v.doc_list]) for v in f.modules[0].variables]
+            except Exception as e:
+                got[label] = f"{type(e).__name__}: {e}"
+    want = [("a", []), ("b", ["doc of b"]), ("c", [])]
+    for label, g in got.items():
+        if g != want:
+            return {"confirmed": True, "input": {"source": one if label.startswith("one") else semi, "decl.inc": inc}, "actual": g, "expected": want,
+                    "how": f"real parser, {label}: (name, documentation) of the module's variables"}
+    src = ("module m\n  use iso_fortran_env\n  !! Set mode to \"fast\" or 'safe', don't mix\n  implicit none\n  !! it's 'quoted' again\n  integer :: x\nend module m\n")
+    try:
+        m = realrun.parse_source(src).modules[0]
+        docs = [x.strip() for x in m.doc_list]
+    except Exception as e:
+        docs = f"{type(e).__name__}: {e}"
+    wantd = ["Set mode to \"fast\" or 'safe', don't mix", "it's 'quoted' again"]
+    if docs != wantd:
+        return {"confirmed": True, "input": {"source": src}, "actual": docs, "expected": wantd, "how": "real parser: documentation lines of a module that stand after `use` / `implicit none`"}
+    return None
